@@ -100,7 +100,9 @@ def monitor (row : Gen.Parrots.Row) (m : Material) (want got : ParsedCH) : Optio
             else none
           | none => none
 
-def sniTag (name : Bytes) : String := Drv.C02.sniClass name
+def sniTag (name : Bytes) : String :=
+  let h := Sni.hostnameInSNI name
+  if 246 ≤ h.length ∧ h.length ≤ 253 then s!"sni-len{h.length}" else Drv.C02.sniClass name
 
 /-- class of the caller-pinned Config.MinVersion/MaxVersion of the case. -/
 def cfgTag (c : Case) : String :=
